@@ -15,6 +15,9 @@
 //     badkey     index of an authority whose raw key is not a valid sr25519 key (ff: none)
 //     shape      digest layout: 0 [pre seal] 1 [pre cons seal] 2 [pre] 3 [seal pre]
 //                4 [pre seal cons] 5 [] 6 [cons pre seal] 7 [pre pre' seal]
+//                8 [pre seal' seal] 9 [pre renv seal] 10 [pre cons seal' renv seal]
+//                (seal': a seal-typed item of another engine, renv: runtime-environment-updated);
+//                the final seal is a signature over the header without its LAST digest item
 //     tag idx    pre-digest kind byte (1 primary, 2 secondary plain, 3 secondary VRF) and
 //                claimed authority index
 //     vrfkey     index of the key producing the VRF output/proof
@@ -22,7 +25,8 @@
 //                4 over epoch+1 5 over other randomness 6 all-zero output and proof
 //     sealkey    index of the key signing the seal
 //     sealtamper 0 none 1 flip a bit 2 signature over another header 3 63-byte signature
-//                4 schnorrkel marker bit cleared 5 empty signature
+//                4 schnorrkel marker bit cleared 5 empty signature 6 signature over the header
+//                without ANY seal-typed item (a seal item inserted after sealing)
 //     cut        pre-digest data: 0 as encoded 1 tag only 2 tag+index 3 tag+index+slot
 //                4 three trailing bytes appended 5 empty
 //     eq         SlotState.CheckEquivocation: 0 returns no proof, 1 returns an error, 2 returns a
@@ -31,7 +35,16 @@
 //   claim <allowed> <n> <c1> <c2> <epoch> <slot> <rseed> <kseed> <me>
 //     claimSlot with authority me's keypair; a produced pre-digest is put into a header, sealed
 //     as BlockBuilder.buildBlockSeal does and verified as above
+//   seq <epoch> <allowedA> <nA> <c1A> <c2A> <rseedA> <kseedA> <allowedB> <nB> <c1B> <c2B> <rseedB> <kseedB>
+//       then per step: <op> <fork> <sfork> <tag> <idx> <slot>
+//     ONE VerificationManager over two forks (parents A, B; the stub EpochState answers
+//     GetEpochDataRaw/GetConfigData by the fork of the queried header) that announce different
+//     data for the same epoch number. op 0: VerifyBlock of a [pre seal] block on fork <fork>
+//     whose claim and seal are made with the keys/randomness of fork <sfork>; op 1: SetOnDisabled
+//     (idx, that header), executed only for its effect on the manager's state.
 // observables:
+//   seq   -> per step, separated by " ; ": the v observable (oracles evaluated under the data of
+//            the block's own fork) or "sd"
 //   v     -> <class> <same> pre=<hex|-> key=<b> below=<t> vrf=<t> seal=<t>
 //            class: ok missing nopre noseal decode badidx over badslot badsec badsig other
 //                   equiv-err equivocated thr-err
@@ -282,18 +295,20 @@ func c24DigestBytes(h *types.Header) []byte {
 	return enc
 }
 
-func c24RunV(f []string) string {
-	a := make([]uint64, len(f))
-	for i := 1; i < len(f); i++ {
-		a[i] = vu.UnX(f[i])
-	}
-	allowed, n, c1, c2, epoch, slot, rseed, kseed, badkey := a[1], a[2], a[3], a[4], a[5], a[6], a[7], a[8], a[9]
-	shape, tag, idx, vrfkey, vrftamper, sealkey, sealtamper, cut, eq := a[10], a[11], a[12], a[13], a[14], a[15], a[16], a[17], a[18]
-	w := c24NewWorld(allowed, n, c1, c2, epoch, rseed, kseed, badkey)
+type c24Params struct {
+	slot, shape, tag, idx, vrfkey, vrftamper, sealkey, sealtamper, cut uint64
+	t1, t2                                                                uint64 // positions of the bit flips
+}
 
+// c24Build builds the header described by p on top of parentHash. The claim is made with the
+// keys and randomness of world signer (normally w itself); the oracles are evaluated by the
+// primitives under world w, i.e. under the epoch data that governs the block.
+func c24Build(w, signer *c24World, parentHash common.Hash, p c24Params) (*types.Header, string, string) {
+	n := uint64(len(w.auths))
+	slot, epoch, tag, idx := p.slot, w.epoch, p.tag, p.idx
 	// ---- the pre-digest
-	vslot, vepoch, vrnd := slot, epoch, w.rnd
-	switch vrftamper {
+	vslot, vepoch, vrnd := slot, signer.epoch, signer.rnd
+	switch p.vrftamper {
 	case 3:
 		vslot++
 	case 4:
@@ -305,15 +320,15 @@ func c24RunV(f []string) string {
 	var proof [64]byte
 	if tag != 2 {
 		var err error
-		out, proof, err = w.keys[vrfkey].VrfSign(makeTranscript(vrnd, vslot, vepoch))
+		out, proof, err = signer.keys[p.vrfkey].VrfSign(makeTranscript(vrnd, vslot, vepoch))
 		if err != nil {
-			return "err:vrfsign"
+			return nil, "", "err:vrfsign"
 		}
-		switch vrftamper {
+		switch p.vrftamper {
 		case 1:
-			out[int(rseed%32)] ^= 1 << (kseed % 8)
+			out[int(p.t1%32)] ^= 1 << (p.t2 % 8)
 		case 2:
-			proof[int(rseed%64)] ^= 1 << (kseed % 8)
+			proof[int(p.t1%64)] ^= 1 << (p.t2 % 8)
 		case 6:
 			out, proof = [32]byte{}, [64]byte{}
 		}
@@ -327,7 +342,7 @@ func c24RunV(f []string) string {
 		data = append(data, out[:]...)
 		data = append(data, proof[:]...)
 	}
-	switch cut {
+	switch p.cut {
 	case 1:
 		data = data[:1]
 	case 2:
@@ -342,13 +357,16 @@ func c24RunV(f []string) string {
 	pre := types.PreRuntimeDigest{ConsensusEngineID: types.BabeEngineID, Data: data}
 	cons := types.ConsensusDigest{ConsensusEngineID: types.BabeEngineID, Data: []byte{1, 2, 3}}
 	pre2 := types.PreRuntimeDigest{ConsensusEngineID: types.ConsensusEngineID{'a', 'u', 'r', 'a'}, Data: []byte{9}}
+	// a seal-typed item of another engine, and the runtime-environment-updated item
+	fseal := types.SealDigest{ConsensusEngineID: types.ConsensusEngineID{'a', 'u', 'r', 'a'}, Data: []byte{0xde, 0xad, byte(p.t1)}}
+	renv := types.RuntimeEnvironmentUpdated{}
 
 	// ---- header and seal
-	r := vu.NewRNG(rseed ^ 0x5555)
-	header := types.NewHeader(types.NewEmptyHeader().Hash(), common.BytesToHash(r.Bytes(32)),
+	r := vu.NewRNG(p.t1 ^ 0x5555)
+	header := types.NewHeader(parentHash, common.BytesToHash(r.Bytes(32)),
 		common.BytesToHash(r.Bytes(32)), 1, types.NewDigest())
 	var before []any // the items preceding the seal in the layouts that have one
-	switch shape {
+	switch p.shape {
 	case 0, 3, 4:
 		before = []any{pre}
 	case 1:
@@ -357,20 +375,36 @@ func c24RunV(f []string) string {
 		before = []any{cons, pre}
 	case 7:
 		before = []any{pre, pre2}
+	case 8:
+		before = []any{pre, fseal}
+	case 9:
+		before = []any{pre, renv}
+	case 10:
+		before = []any{pre, cons, fseal, renv}
 	}
-	msg := c24SealMsg(header, before)
-	if sealtamper == 2 {
+	signed := before
+	if p.sealtamper == 6 {
+		// the signature covers the header without ANY seal-typed item (a seal item inserted after sealing)
+		signed = nil
+		for _, it := range before {
+			if _, isSeal := it.(types.SealDigest); !isSeal {
+				signed = append(signed, it)
+			}
+		}
+	}
+	msg := c24SealMsg(header, signed)
+	if p.sealtamper == 2 {
 		other := *header
 		other.Number = 2
 		msg = c24SealMsg(&other, before)
 	}
-	sig, err := w.keys[sealkey].Sign(msg)
+	sig, err := signer.keys[p.sealkey].Sign(msg)
 	if err != nil {
-		return "err:sign"
+		return nil, "", "err:sign"
 	}
-	switch sealtamper {
+	switch p.sealtamper {
 	case 1:
-		sig[int(rseed%63)] ^= 1 << (kseed % 8)
+		sig[int(p.t1%63)] ^= 1 << (p.t2 % 8)
 	case 3:
 		sig = sig[:63]
 	case 4:
@@ -380,8 +414,8 @@ func c24RunV(f []string) string {
 	}
 	seal := types.SealDigest{ConsensusEngineID: types.BabeEngineID, Data: sig}
 	var items []any
-	switch shape {
-	case 0, 1, 6, 7:
+	switch p.shape {
+	case 0, 1, 6, 7, 8, 9, 10:
 		items = append(append([]any{}, before...), seal)
 	case 2:
 		items = []any{pre}
@@ -394,20 +428,21 @@ func c24RunV(f []string) string {
 	}
 	for _, it := range items {
 		if err := header.Digest.Add(it); err != nil {
-			return "err:digest"
+			return nil, "", "err:digest"
 		}
 	}
 
-	// ---- oracles by the primitives, for the claimed authority
+	// ---- oracles by the primitives, for the claimed authority, under the block's own epoch data;
+	// the seal oracle is over the header without its LAST digest item
 	key, below, vrf, sealv := "-", "-", "-", "-"
 	first := "-"
 	if len(items) > 0 {
-		if p, ok := items[0].(types.PreRuntimeDigest); ok {
-			first = vu.Hex(p.Data)
+		if pd, ok := items[0].(types.PreRuntimeDigest); ok {
+			first = vu.Hex(pd.Data)
 			if first == "-" {
 				first = "e" // an empty data field
 			}
-			ptag, pidx, pslot, pout, pproof, ok := c24Parse(p.Data)
+			ptag, pidx, pslot, pout, pproof, ok := c24Parse(pd.Data)
 			if ok && uint64(pidx) < n {
 				pk, err := sr25519.NewPublicKey(w.auths[pidx].Key[:])
 				if err != nil {
@@ -415,7 +450,7 @@ func c24RunV(f []string) string {
 				} else {
 					key = "1"
 					if ptag != 2 {
-						if thr, err := CalculateThreshold(c1, c2, int(n)); err == nil {
+						if thr, err := CalculateThreshold(w.cfg.C1, w.cfg.C2, int(n)); err == nil {
 							below = c24Below(w.rnd, pslot, epoch, pout, thr, pk)
 						}
 						vrf = c24Tri(pk.VrfVerify(makeTranscript(w.rnd, pslot, epoch), pout, pproof))
@@ -427,14 +462,131 @@ func c24RunV(f []string) string {
 			}
 		}
 	}
+	return header, fmt.Sprintf("pre=%s key=%s below=%s vrf=%s seal=%s", first, key, below, vrf, sealv), ""
+}
 
+// c24Verified runs verify on the header and reports the class and whether the digest is unchanged.
+func c24Verified(header *types.Header, verify func(*types.Header) error) string {
 	dgBefore := c24DigestBytes(header)
-	class := c24Class(w.verify(header, eq))
+	class := c24Class(verify(header))
 	same := "0"
 	if bytes.Equal(dgBefore, c24DigestBytes(header)) {
 		same = "1"
 	}
-	return fmt.Sprintf("%s %s pre=%s key=%s below=%s vrf=%s seal=%s", class, same, first, key, below, vrf, sealv)
+	return class + " " + same
+}
+
+func c24RunV(f []string) string {
+	a := make([]uint64, len(f))
+	for i := 1; i < len(f); i++ {
+		a[i] = vu.UnX(f[i])
+	}
+	allowed, n, c1, c2, epoch, slot, rseed, kseed, badkey := a[1], a[2], a[3], a[4], a[5], a[6], a[7], a[8], a[9]
+	p := c24Params{slot: slot, shape: a[10], tag: a[11], idx: a[12], vrfkey: a[13], vrftamper: a[14],
+		sealkey: a[15], sealtamper: a[16], cut: a[17], t1: rseed, t2: kseed}
+	eq := a[18]
+	w := c24NewWorld(allowed, n, c1, c2, epoch, rseed, kseed, badkey)
+	header, oracles, e := c24Build(w, w, types.NewEmptyHeader().Hash(), p)
+	if e != "" {
+		return e
+	}
+	return c24Verified(header, func(h *types.Header) error { return w.verify(h, eq) }) + " " + oracles
+}
+
+// ---- sequences on ONE VerificationManager over two forks with different epoch data for the
+// same epoch number
+
+type c24ForkBlock struct {
+	BlockState
+	parents map[common.Hash]*types.Header
+}
+
+func (b *c24ForkBlock) GetHeader(h common.Hash) (*types.Header, error) {
+	if p, ok := b.parents[h]; ok {
+		return p, nil
+	}
+	return nil, errors.New("c24 stub: unknown header")
+}
+func (b *c24ForkBlock) GenesisHash() common.Hash                          { return common.Hash{0xaa} }
+func (b *c24ForkBlock) IsDescendantOf(_, _ common.Hash) (bool, error)     { return false, nil }
+func (b *c24ForkBlock) BestBlockHash() common.Hash                        { return common.Hash{0xaa} }
+
+type c24ForkEpoch struct {
+	EpochState
+	epoch  uint64
+	worlds map[common.Hash]*c24World // by the hash of the fork's parent block
+}
+
+func (e *c24ForkEpoch) worldOf(h *types.Header) (*c24World, error) {
+	if w, ok := e.worlds[h.ParentHash]; ok {
+		return w, nil
+	}
+	if w, ok := e.worlds[h.Hash()]; ok {
+		return w, nil
+	}
+	return nil, errors.New("c24 stub: header on no known fork")
+}
+func (e *c24ForkEpoch) GetEpochForBlock(*types.Header) (uint64, error) { return e.epoch, nil }
+func (e *c24ForkEpoch) GetSlotDuration() (time.Duration, error)         { return 6 * time.Second, nil }
+func (e *c24ForkEpoch) GetEpochDataRaw(_ uint64, h *types.Header) (*types.EpochDataRaw, error) {
+	w, err := e.worldOf(h)
+	if err != nil {
+		return nil, err
+	}
+	return &types.EpochDataRaw{Authorities: w.auths, Randomness: w.rnd}, nil
+}
+func (e *c24ForkEpoch) GetConfigData(_ uint64, h *types.Header) (*types.ConfigData, error) {
+	w, err := e.worldOf(h)
+	if err != nil {
+		return nil, err
+	}
+	return w.cfg, nil
+}
+
+func c24RunSeq(f []string) string {
+	a := make([]uint64, len(f))
+	for i := 1; i < len(f); i++ {
+		a[i] = vu.UnX(f[i])
+	}
+	epoch := a[1]
+	worlds := []*c24World{
+		c24NewWorld(a[2], a[3], a[4], a[5], epoch, a[6], a[7], 0xff),
+		c24NewWorld(a[8], a[9], a[10], a[11], epoch, a[12], a[13], 0xff),
+	}
+	parents := make([]*types.Header, 2)
+	bs := &c24ForkBlock{parents: map[common.Hash]*types.Header{}}
+	es := &c24ForkEpoch{epoch: epoch, worlds: map[common.Hash]*c24World{}}
+	for i := range parents {
+		p := types.NewEmptyHeader()
+		p.Number = 10
+		p.StateRoot = common.Hash{byte(0xa + i)}
+		parents[i] = p
+		bs.parents[p.Hash()] = p
+		es.worlds[p.Hash()] = worlds[i]
+	}
+	vm := NewVerificationManager(bs, &c24Slot{mode: 0}, es)
+	var out []string
+	for k := 14; k+5 < len(a); k += 6 {
+		op, fork, sfork, tag, idx, slot := a[k], a[k+1]%2, a[k+2]%2, a[k+3], a[k+4], a[k+5]
+		w, signer := worlds[fork], worlds[sfork]
+		key := idx
+		if key > uint64(len(signer.auths)) {
+			key = uint64(len(signer.auths))
+		}
+		p := c24Params{slot: slot, tag: tag, idx: idx, vrfkey: key, sealkey: key, t1: a[6] + uint64(k), t2: a[7]}
+		header, oracles, e := c24Build(w, signer, parents[fork].Hash(), p)
+		if e != "" {
+			return e
+		}
+		if op == 1 {
+			// only for its effect on the manager's per-epoch cache
+			_ = vm.SetOnDisabled(uint32(idx), header)
+			out = append(out, "sd")
+			continue
+		}
+		out = append(out, c24Verified(header, vm.VerifyBlock)+" "+oracles)
+	}
+	return strings.Join(out, " ; ")
 }
 
 func c24RunClaim(f []string) string {
@@ -494,6 +646,8 @@ func c24Run(in string) string {
 		return c24RunV(f)
 	case "claim":
 		return c24RunClaim(f)
+	case "seq":
+		return c24RunSeq(f)
 	}
 	return "err:bad-input"
 }
@@ -524,9 +678,12 @@ func c24Sweep(emit func(string)) {
 						vts = 1
 					}
 					for vt := uint64(0); vt < vts; vt++ {
-						for st := uint64(0); st <= 5; st++ {
-							for shape := uint64(0); shape <= 7; shape++ {
-								if shape >= 2 && (vt != 0 || st != 0) {
+						for st := uint64(0); st <= 6; st++ {
+							for shape := uint64(0); shape <= 10; shape++ {
+								if shape >= 2 && shape <= 7 && (vt != 0 || st != 0) {
+									continue
+								}
+								if shape >= 8 && vt != 0 {
 									continue
 								}
 								for cut := uint64(0); cut <= 5; cut++ {
@@ -563,6 +720,68 @@ func c24Sweep(emit func(string)) {
 	}
 }
 
+// c24GenSeq: two forks with different epoch data for the same epoch number (other authority keys,
+// other randomness, other authority count, other configuration -- at least one differs), and 2-6
+// steps on one manager: blocks of either fork, authored honestly under the data of the same or of
+// the OTHER fork, and SetOnDisabled calls.
+func c24GenSeq(r *vu.RNG) string {
+	epoch := uint64(1 + r.Intn(40))
+	type fk struct{ allowed, n, c1, c2, rseed, kseed uint64 }
+	mk := func() fk {
+		c2 := uint64(1)
+		if r.Chance(1, 4) {
+			c2 = 1 << 40
+		}
+		return fk{uint64(r.Intn(3)), uint64(1 + r.Intn(3)), 1, c2, uint64(r.Intn(1 << 30)), uint64(r.Intn(1 << 20))}
+	}
+	fa := mk()
+	fb := fa
+	switch r.Intn(5) {
+	case 0: // everything differs
+		fb = mk()
+	case 1: // only the randomness
+		fb.rseed = fa.rseed + 1
+	case 2: // only the authority keys
+		fb.kseed = fa.kseed + 1
+	case 3: // only the configuration
+		fb.allowed = (fa.allowed + 1 + uint64(r.Intn(2))) % 3
+	default: // the authority count (the first authorities are shared)
+		fb.n = 1 + fa.n%3
+	}
+	forks := []fk{fa, fb}
+	s := fmt.Sprintf("seq %x %x %x %x %x %x %x %x %x %x %x %x %x", epoch, fa.allowed, fa.n, fa.c1, fa.c2, fa.rseed, fa.kseed,
+		fb.allowed, fb.n, fb.c1, fb.c2, fb.rseed, fb.kseed)
+	steps := 2 + r.Intn(5)
+	first := uint64(r.Intn(2))
+	for k := 0; k < steps; k++ {
+		fork := uint64(r.Intn(2))
+		if k == 0 {
+			fork = first
+		} else if k == 1 {
+			fork = 1 - first
+		}
+		sfork := fork
+		if r.Chance(1, 3) {
+			sfork = 1 - fork
+		}
+		op := uint64(0)
+		if r.Chance(1, 6) {
+			op = 1
+		}
+		sf := forks[sfork]
+		slot := uint64(r.Intn(1 << 20))
+		author := c24Author(sf.rseed, slot, sf.n)
+		// an honest claim under the signer fork's data
+		tag := uint64(1)
+		idx := uint64(r.Intn(int(sf.n)))
+		if sf.allowed != 0 && (sf.c2 != 1 || r.Chance(1, 2)) {
+			tag, idx = sf.allowed+1, author
+		}
+		s += fmt.Sprintf(" %x %x %x %x %x %x", op, fork, sfork, tag, idx, slot)
+	}
+	return s
+}
+
 func c24Gen(r *vu.RNG, total int, emit func(string)) {
 	thresholds := [][2]uint64{{1, 1}, {1, 1}, {1, 4}, {1, 2}, {1, 1 << 40}, {3, 4}}
 	if vu.Thorough() {
@@ -579,6 +798,10 @@ func c24Gen(r *vu.RNG, total int, emit func(string)) {
 		slot := r.U64() >> uint(r.Intn(64))
 		rseed, kseed := uint64(r.Intn(1<<30)), uint64(r.Intn(1<<20))
 		author := c24Author(rseed, slot, n)
+		if r.Chance(1, 8) {
+			emit(c24GenSeq(r))
+			continue
+		}
 		if r.Chance(1, 6) {
 			me := author
 			if r.Chance(1, 3) {
@@ -607,6 +830,14 @@ func c24Gen(r *vu.RNG, total int, emit func(string)) {
 		var badkey, shape, vrftamper, sealtamper, cut, eq uint64 = 0xff, 0, 0, 0, 0, 0
 		if r.Chance(1, 3) {
 			shape = 1
+		}
+		if r.Chance(1, 6) {
+			// further digest items before the final seal: a seal-typed item of another engine,
+			// runtime-environment-updated, consensus; the author signs the header without the LAST item
+			shape = uint64(8 + r.Intn(3))
+			if r.Chance(1, 3) {
+				sealtamper = 6 // ... or the seal only covers the header without any seal-typed item
+			}
 		}
 		if r.Chance(1, 8) && n >= 2 && (allowed == 1 || allowed == 2) {
 			// a secondary claim of the allowed kind by an authority that is not the slot's author
@@ -640,9 +871,9 @@ func c24Gen(r *vu.RNG, total int, emit func(string)) {
 			case 4:
 				vrftamper = uint64(1 + r.Intn(6))
 			case 5:
-				sealtamper = uint64(1 + r.Intn(5))
+				sealtamper = uint64(1 + r.Intn(6))
 			case 6:
-				shape = uint64(r.Intn(8))
+				shape = uint64(r.Intn(11))
 			case 7:
 				cut = uint64(1 + r.Intn(5))
 			case 8:
